@@ -189,7 +189,10 @@ add("C31", "TLC on MultiGrid.tla (index maps of periodic, open and HEALPix grids
     "real Grid / OpenGrid / HEALPixGrid - alone and as one axis of a two-axis grid - and compared (children, parent, neighbourhood, coordinate, volume, "
     "coordinate round trip). The laws of the statement are additionally evaluated on the real outputs alone for two-axis grids, MGrid products, "
     "FlatGrid (serial/nest bijection and round trip), HEALPix, SimpleOpenGrid and logarithmic radial grids.",
-    TRUST + "one-axis specification (product grids act axis by axis); open-grid neighbourhoods are specified only where the refinement uses them.")
+    TRUST + "one-axis specification (product grids act axis by axis); open-grid neighbourhoods are specified only where the refinement uses them. "
+    "FlatGrid.tla: serial and nest flat indices of 70 two-axis grids and a sparse selection of nest indices per level (children / parents as array indices); "
+    "TLC: both orderings are bijections and in nest ordering the children of f are f S .. f S + S - 1; every table is replayed into FlatGrid (index maps both ways, "
+    "children, parents, 3 x 3 neighbourhoods, coordinates) and SparseGrid (array index <-> flat index, refined voxels, children, parents, coordinates).")
 
 add("C08", "TLC on PowerBins.tla (exact geometry of harmonic grids and their power spaces) and DomainCache.tla (canonical-object cache over all call histories) + replay of every configuration / history into nifty.cl + volume laws on the real domains",
     "456 harmonic regular grids (1-2 axes, shapes up to 5x2 / 4x4, four dyadic distances per axis) with natural and custom binnings are specified exactly "
@@ -200,14 +203,16 @@ add("C08", "TLC on PowerBins.tla (exact geometry of harmonic grids and their pow
     "MultiDomain.make in either key order, union, pickling, PowerSpace) are replayed: identical object / == / hash exactly when the descriptions are "
     "equal; unpickling in a fresh process yields that process's canonical objects. Total volume = sum of pixel volumes is checked on RG (position and "
     "harmonic), GL, HP, LM, power and DOF spaces.",
-    TRUST + "dyadic distances (exact squares); the merging tolerance of nearly equal k-lengths is not exercised.")
+    TRUST + "dyadic distances (exact squares); the merging tolerance of nearly equal k-lengths is not exercised. Default partner domains (RGSpace: 1 / (n d) and back; "
+    "LMSpace <-> GLSpace closed forms asserted in PowerBins.tla, HPSpace -> LMSpace(2 nside)) and check_codomain are replayed.")
 add("C10", "TLC on PowerBins.tla + replay: dense PowerDistributor and adjoint, exact power_analyze round trips (with/without phase, sub-space of a product domain), create_power_operator, JAX mode distributor",
     "For each of the 456 binned harmonic grids of PowerBins.tla the PowerDistributor is projected to a dense matrix (M[p,b] = 1 iff pixel p is in bin b) and "
     "its adjoint to the per-bin sums; power_analyze of the square root of a distributed perfect-square spectrum must return the spectrum exactly, with "
     "phase information the spectra of real and imaginary part, for a complex field the spectrum of the squared modulus, and over the harmonic sub-space of "
     "a product domain; create_power_operator with the spectrum as a Field (also on a sub-space) and as a function must be the diagonal of the distributed "
     "spectrum; nifty.re's get_fourier_mode_distributor must bin the modes identically.",
-    TRUST + "perfect-square spectra make sqrt and bin averages exact.")
+    TRUST + "perfect-square spectra make sqrt and bin averages exact. get_signal_variance (sum over the modes of spectrum x pixel volume^2 = per bin count x spectrum, in Rat), "
+    "linear (exact) / logarithmic (geometric progression) bin bounds and the usability of useful_binbounds for spaces with at least four k-lengths are checked as well.")
 
 add("C09", "TLC on Harmonic.tla (FFT / Hartley entries as exact volume and fraction of a turn; INVERSE.TIMES = 1 checked exactly for quarter-turn grids) + replay into FFTOperator / HartleyOperator (four modes, both conventions), the three back ends, sub-space transforms; smoothing and SHT laws",
     "For 66 regular grids (1-3 axes, axis lengths 2-5, three distances per axis) every entry of the transform in TIMES and INVERSE mode is specified as "
@@ -258,7 +263,9 @@ add("C33", "TLC on PyTree.tla (every tree_math operation defined tree-wise and o
     "f over input axes (positive, negative, None) into output axes (incl. None = batch-constant) defined directly (Take/Stack) and by the library's "
     "move-to-front algorithm, equal on all instances; smap and lmap are compared with the expected arrays for tuple axes, a single axis, per-leaf axes of a "
     "dict argument and of a dict result; jax.vmap must reproduce the specification (otherwise machinery failure).",
-    TRUST + "leaves are 1-d; arrays of rank 3 with sizes (2,3,2); four function shapes (elementwise, contraction, two outputs, batch-constant output).")
+    TRUST + "leaves are 1-d; arrays of rank 3 with sizes (2,3,2); four function shapes (elementwise, contraction, two outputs, batch-constant output). Forests (three trees of one "
+    "structure): mean, mean_and_std (biased / unbiased), stack / unstack, map_forest, map_forest_mean (vmap / lmap / smap) and unite (key union) against the entry-wise flat results "
+    "(ForestLaw, UniteLaw); Vector.min / divmod / size / shape / copy / ravel.")
 
 add("C03", "TLC on Calculus.tla (operator expressions as SSA programs with symbolic values and symbolic derivatives; derivative rules checked against exact dual-number differentiation on the rational sub-language) + replay of every program into nifty.cl at dyadic points",
     "One TLC action per operator constructor (key extraction, sums, differences, products, 25 point-wise functions with and without parameters, scaling, "
@@ -276,7 +283,8 @@ add("C04", "TLC on Calculus.tla (programs over both keys) + replay: simplify_for
     "For every program over both keys and each key held constant the specialised operator must live on the other key, keep the target, reproduce the "
     "value and exactly the Jacobian columns (and for energies the metric block) of the free key; EnergyAdapter with constants must report value and "
     "gradient of the free key only and one minimiser step must leave the constant key untouched.",
-    TRUST + "two keys (two proper subsets); real fields.")
+    TRUST + "two keys (two proper subsets); real fields. StochasticEnergyAdapter (the constant key filled with the adapter's own mirrored samples): value, gradient, "
+    "metric = the averages of the specification's value / free-key columns / metric block over the samples; at() keeps the samples; EnergyAdapter.apply_metric.")
 add("C05", "TLC on Calculus.tla (programs with re-used slots = shared Python objects) + replay: optimise_operator(op) against the symbolic value and Jacobian at up to four points; the original operator re-evaluated",
     "Slots may be used several times, so the built operator contains the same object in several places (shared leaves and sub-trees; a vacuity "
     "witness shows such programs are reached). The optimised operator must keep domain and target and reproduce value and Jacobian of the "
@@ -290,7 +298,8 @@ add("C06", "TLC on FieldArith.tla (contractions of fields over tuples of spaces 
     "complex128 values: partial contractions (result domain checked), the scalar s_* variants, point-wise arithmetic and comparisons against "
     "NumPy, MultiField dot product / norm / sum / arithmetic against concatenated arrays, volume operations over the unstructured domain must "
     "fail, operands on a different domain of the same shape must be rejected.",
-    TRUST + "sphere pixelisations enter through C08's volume laws only.")
+    TRUST + "sphere pixelisations enter through C08's volume laws only. Further Field / MultiField interface (unary plus, scale, map, extract, unite, flexible_addsub, all / any with "
+    "spaces, real / imag / astype, broadcast of a contracted field, s_std; per-key real / imag / conjugate / abs / clip / astype, s_all / s_any, size, val_rw) against the array results.")
 
 add("C18", "TLC on LinGauss.tla (exact posterior covariance of linear Gaussian models and its blocks under point estimates) and SampleModes.tla (sampling-mode state machine of the JAX driver: keys re-used / fresh, samples aligned with keys; action properties) + replay of every sampling schedule into OptimizeVI.draw_samples with recording samplers + exact sample covariance of the real samplers by unit excitations (classic through Random.normal, JAX through evi.random_like)",
     "24 models (six response matrices incl. rank 0 and rank 1, two noise settings, two data vectors): D = (1 + R^T N^-1 R)^-1 by adjugates in Rat; "
@@ -325,7 +334,8 @@ add("C34", "TLC on EigBatches.tla (batch schedule of the resumable eigenvalue co
     "The ELBO with all eigenvalues must equal 1/2 log|D| + dim/2 - H(sample) for every sample, for eager / compiled metric, signal / data space, "
     "with the eigensystem saved and resumed from part of it, in nifty.re and nifty.cl. Lanczos with order = dimension reproduces spectrum, basis "
     "and V A V^T = T, the quadrature is exact per probe, the stochastic log-determinant is exact for diagonal operators.",
-    TRUST + "the estimators below full order (stochastic error) are not covered.")
+    TRUST + "the estimators below full order (stochastic error) are not covered. The classic module's _eigsh is validated against EigBatchesTrace.tla like the JAX one (234 request "
+    "traces, including resumed runs that are handed more eigenpairs than requested: Kept); classic ELBO with saved / resumed eigensystem.")
 
 add("C32", "TLC on Leapfrog.tla (exact leapfrog trajectories; reversibility and symplecticity checked), HmcChain.tla (key lineage and bookkeeping of the chain classes, with trace validation of recorded chains by HmcChainTrace.tla and replay of segmentations) and NutsTree.tla (U-turn bookkeeping of the iterative tree doubling = balanced sub-trees of the recursive definition) + replay into leapfrog_step, iterative_build_tree (is_euclidean_uturn wrapped from outside) and generate_hmc_acc_rej",
     "Leapfrog.tla: one action per integrator step over Rat for two quadratic potentials and a quartic one, diagonal inverse mass matrices, dyadic "
